@@ -17,8 +17,9 @@
 (*     (Finish), producing spans and deltas; Decode turns them back into     *)
 (*     index -> count.                                                      *)
 (*                                                                         *)
-(* TLC checks Decode(transcription) = RefBuckets for every generated input  *)
-(* except where the recorded deviation KF-C43-1 occurred (StaleIdx).         *)
+(* TLC checks Decode(transcription) = RefBuckets for every generated input. *)
+(* (KF-C43-1, a stale bucket index after an empty bucket, was found with     *)
+(* this model and is fixed; the transcription follows the fixed code.)       *)
 (* The same machine with d = 0 and no index adjustment is the explicit      *)
 (* histogram -> custom buckets conversion (mode "explicit").                 *)
 (*                                                                         *)
@@ -72,10 +73,11 @@ RefBuckets(mode, counts, off, d) ==
 VARIABLES mode, scale, off, full,   \* input: full = the dense array as given by the data point
           counts, boff,             \* the arguments of convertBucketsLayout (explicit mode strips leading zeros)
           i,                        \* loop variable (1-based position), Len+1 = epilogue, Len+2 = done
-          bucketIdx, count, prevCount, spans, deltas,
-          stale                     \* history: the `count == 0` branch loaded a non-zero count without moving bucketIdx
+          bucketIdx,                \* index the next appended bucket gets if there is no gap
+          countIdx,                 \* index of the bucket `count` is being collected for
+          count, prevCount, spans, deltas
 
-vars == <<mode, scale, off, full, counts, boff, i, bucketIdx, count, prevCount, spans, deltas, stale>>
+vars == <<mode, scale, off, full, counts, boff, i, bucketIdx, countIdx, count, prevCount, spans, deltas>>
 
 D == IF mode = "exp" THEN ScaleDown(scale) ELSE 0
 Adjust == mode = "exp"
@@ -108,37 +110,37 @@ Init ==
   /\ counts = IF mode = "exp" THEN full ELSE SubSeq(full, LeadingZeros(full) + 1, Len(full))
   /\ i = 1
   /\ bucketIdx = Shr(boff, D) + 1
+  /\ countIdx = Shr(boff, D) + 1
   /\ count = 0 /\ prevCount = 0
   /\ spans = IF Len(counts) = 0 THEN <<>> ELSE <<[off |-> IF Adjust THEN Shr(boff, D) + 1 ELSE boff, len |-> 0]>>
   /\ deltas = <<>>
-  /\ stale = FALSE
 
 \* one iteration of `for i := range numBuckets`
 Iter ==
   /\ Len(counts) > 0 /\ i <= Len(counts)
   /\ LET next == Shr(i - 1 + boff, D) + 1 IN
-     IF bucketIdx = next
-     THEN /\ count' = count + counts[i]
-          /\ UNCHANGED <<bucketIdx, prevCount, spans, deltas, stale>>
+     IF countIdx = next
+     THEN /\ count' = count + counts[i]                \* not enough buckets collected to merge yet
+          /\ UNCHANGED <<bucketIdx, countIdx, prevCount, spans, deltas>>
      ELSE IF count = 0
-     THEN /\ count' = counts[i]                       \* if count == 0 { count = bucketCounts[i]; continue } - bucketIdx stays
-          /\ stale' = (stale \/ counts[i] # 0)
+     THEN /\ count' = counts[i]                        \* skip the empty bucket, collect for the next one
+          /\ countIdx' = next
           /\ UNCHANGED <<bucketIdx, prevCount, spans, deltas>>
-     ELSE LET st == Flush(next - bucketIdx - 1) IN
+     ELSE LET st == Flush(countIdx - bucketIdx) IN
           /\ spans' = st.spans /\ deltas' = st.deltas /\ prevCount' = st.prev
+          /\ bucketIdx' = countIdx + 1
           /\ count' = counts[i]
-          /\ bucketIdx' = next
-          /\ UNCHANGED stale
+          /\ countIdx' = next
   /\ i' = i + 1
   /\ UNCHANGED <<mode, scale, off, full, counts, boff>>
 
-\* after the loop: gap to the last item's index, then appendDelta(count)
+\* after the loop: the last collected bucket has not been appended yet
 Finish ==
   /\ Len(counts) > 0 /\ i = Len(counts) + 1
-  /\ LET st == Flush(Shr(Len(counts) + boff - 1, D) + 1 - bucketIdx) IN
+  /\ LET st == Flush(countIdx - bucketIdx) IN
      /\ spans' = st.spans /\ deltas' = st.deltas /\ prevCount' = st.prev
   /\ i' = i + 1
-  /\ UNCHANGED <<mode, scale, off, full, counts, boff, bucketIdx, count, stale>>
+  /\ UNCHANGED <<mode, scale, off, full, counts, boff, bucketIdx, countIdx, count>>
 
 Next == Iter \/ Finish
 Spec == Init /\ [][Next]_vars
@@ -162,15 +164,8 @@ Ref == RefBuckets(mode, full, off, D)
 -----------------------------------------------------------------------------
 (*                              PROPERTIES                                  *)
 
-\* KF-C43-1: when a target bucket that received only zeros is left, the next count is loaded but bucketIdx is not
-\* advanced; with down-scaling the following source buckets of the same target bucket are then flushed one bucket too
-\* early (counts land in the empty lower bucket instead of being summed)
-KF_C43_1 == stale /\ D > 0
-
 \* C43 on the design: each target bucket holds the sum of the source buckets it covers
-BucketsMatch == Done => (Decode(spans, deltas) = Ref \/ KF_C43_1)
-\* without down-scaling (and in explicit mode) the conversion is exact
-BucketsMatchNoScaleDown == (Done /\ D = 0) => Decode(spans, deltas) = Ref
+BucketsMatch == Done => Decode(spans, deltas) = Ref
 
 \* the total never changes, whatever the layout
 RECURSIVE SeqSum(_)
@@ -202,8 +197,7 @@ ToSeq(S) == LET RECURSIVE f(_) f(T) == IF T = {} THEN <<>> ELSE LET x == CHOOSE 
 Behaviour ==
   [mode |-> mode, scale |-> scale, schema |-> IF mode = "exp" THEN SchemaOf(scale) ELSE -53, off |-> off, counts |-> full,
    want |-> ToSeq(Ref),
-   kf |-> Decode(spans, deltas) # Ref,
-   impl |-> IF Decode(spans, deltas) # Ref THEN ToSeq(Decode(spans, deltas)) ELSE <<>>]
+   layout |-> [spans |-> spans, deltas |-> deltas]]
 
 EmitDone == ~Done \/ PrintT("@@TR " \o ToJson(Behaviour))
 
